@@ -193,3 +193,14 @@ Example C06_text_examples :
   resp_of_body (bs "{""patch_available"":false,""rolled_back_patch_numbers"":[1,02]}") = None /\
   resp_of_body [] = None.
 Proof. vm_compute. repeat split. Qed.
+
+(* a body cut short anywhere - the connection closed early, a Content-Length that lies - is a failed check: no strict
+   prefix of an accepted object body is accepted *)
+From UV Require Import JsonTorn.
+Theorem C06_text_truncated_body_is_rejected :
+  forall (P p r : bytes) a,
+    resp_of_body P = Some a -> P = (p ++ r)%list -> r <> [] ->
+    (exists x, skip_ws P = (123 :: x)%N) -> (exists y, P = (y ++ [125%N])%list) ->
+    resp_of_body p = None.
+Proof. exact truncated_body_is_rejected. Qed.
+Print Assumptions C06_text_truncated_body_is_rejected.
